@@ -275,6 +275,38 @@ def run_resume(ctx, idx0):
                             callback_run=lambda x, k, cb: S.landweber(A, x, b, k, omega=om, callback=cb))
                 split_check(ctx, 'kaczmarz', kind, lambda x, k: S.kaczmarz([A, 0.5 * A], x, [b, 0.5 * b], k, omega=om), x0, niter, n1,
                             callback_run=lambda x, k, cb: S.kaczmarz([A, 0.5 * A], x, [b, 0.5 * b], k, omega=om, callback=cb))
+                # non-linear forward operators (documented for landweber / kaczmarz): the Jacobian is re-evaluated at every
+                # iterate; reference = the textbook loop written out here
+                Nl = A * (odl.IdentityOperator(X) + 0.2 * odl.PowerOperator(X, 3))
+                omn = 0.3 / (Pb.opn * (1 + 0.6 * float(np.abs(np.asarray(x0)).max() + 1.0) ** 2)) ** 2
+
+                def lw_ref(x, k, op=Nl, w=omn):
+                    its = []
+                    for _ in range(k):
+                        x = x + w * op.derivative(x).adjoint(b - op(x))
+                        its.append(trace.flat(x).copy())
+                    return its
+
+                def kz_ref(x, k, ops=(Nl, 0.5 * Nl), rhs=(b, 0.5 * b), w=omn):
+                    its = []
+                    for _ in range(k):
+                        for o_, r_ in zip(ops, rhs):
+                            x = x + w * o_.derivative(x).adjoint(r_ - o_(x))
+                        its.append(trace.flat(x).copy())
+                    return its
+                for sname_, solver, ref in (('landweber', lambda x, k, cb=None: S.landweber(Nl, x, b, k, omega=omn, callback=cb), lw_ref),
+                                            ('kaczmarz', lambda x, k, cb=None: S.kaczmarz([Nl, 0.5 * Nl], x, [b, 0.5 * b], k, omega=omn, callback=cb), kz_ref)):
+                    split_check(ctx, sname_, kind + ';nonlinear', lambda x, k, solver=solver: solver(x, k), x0, niter, n1)
+                    ctx.ev('reference-equality')
+                    try:
+                        r = trace.Recorder()
+                        xa = x0.copy()
+                        solver(xa, niter, r)
+                        mm = trace.first_mismatch(r.iterates, ref(x0.copy(), niter))
+                        if mm:
+                            ctx.violation(sname_, kind + ';nonlinear', 'iterate-mismatch', first_k=mm[0], rel=mm[1], niter=niter)
+                    except Exception as e:
+                        ctx.violation(sname_, kind + ';nonlinear', 'raises:' + type(e).__name__, message=str(e)[:200])
                 data = S.L2NormSquared(Y).translated(b) * A
                 gam = 0.4 / Pb.opn ** 2
                 f = Pb.fs()[fn]
